@@ -4,6 +4,7 @@ use crate::report::{CheckMeta, Outcome};
 use crate::Ctx;
 
 pub mod diag;
+pub mod dispatch;
 pub mod codes;
 pub mod modelval;
 pub mod readers;
@@ -21,6 +22,7 @@ pub fn run(id: &str, ctx: &Ctx) -> (CheckMeta, Outcome) {
         "C07" => readers::c07(ctx),
         "C08" => writers::c08(ctx),
         "C09" => readers::c09(ctx),
+        "C10" => dispatch::c10(ctx),
         "C12" => writers::c12(ctx),
         _ => {
             println!("unknown property {}", id);
@@ -43,6 +45,7 @@ pub fn replay_file(path: &str) -> i32 {
             "writer" => crate::wrsys::replay(r),
             "item" => crate::streams::replay_item(r, &diag),
             "len" => codes::replay_len(r),
+            "disp" => dispatch::replay(r),
             k => (vec![format!("unknown replay kind {:?}", k)], false),
         }
     };
